@@ -386,6 +386,14 @@ def shard_work(shard, nshards, payload):
         p = build_program(vd, k, prog, depth, t)
         if p is not None:
             ps.append(p)
+    for p in ps:
+        # a program whose target follows its sources needs the support code: a mode that produces none must not accept it
+        if not p.meta.get("props"):
+            continue        # nothing is read: a constant
+        rj = vd.job({"id": p.pid, "source": p.meta["source"], "modes": ["reject"]})["modes"]["reject"]
+        t.inc("reject_mode_programs")
+        if vc.accepted(rj):
+            t.violation("stale:accepted-in-the-mode-without-support-code", {"program": p.meta["name"], "source": p.meta["source"]})
     res = run_programs(ps, f"c02-{shard}")
     for p in ps:
         judge(t, p, res[p.pid])
@@ -510,8 +518,12 @@ def shipped_header_is_current(tally):
     import subprocess
     vd = vc.VDrive()
     progs_ = [p for p in programs("quick") if p["name"].endswith("/unconditional")][:6]
+    # edits that keep every output at its length (another source object, another property, another constant)
+    same = [{"name": f"same-length/{e}", "source": HEAD + f"    VObj {{ id: t; ri: {e} }}\n}}\n"}
+            for e in ("b0.i + 1", "c0.i + 1", "c0.j + 1", "c0.j + 2", "b0.j + 2")]
+    pairs = list(zip(progs_, progs_[1:] + progs_[:1])) + list(zip(same, same[1:] + same[:1]))
     with vc.scratch_dir("c02cli") as d:
-        for a, b in zip(progs_, progs_[1:] + progs_[:1]):
+        for a, b in pairs:
             want = vd.job({"id": 0, "source": b["source"], "modes": ["generate"], "type_name": "Doc"})["modes"]["generate"]
             first = vd.job({"id": 0, "source": a["source"], "modes": ["generate"], "type_name": "Doc"})["modes"]["generate"]
             if not vc.accepted(want) or not vc.accepted(first):
